@@ -4,7 +4,9 @@ A case is a history of write transactions.  The same history is run against six 
 (dns.zone.Zone, dns.versioned.Zone, dns.btreezone.Zone x relativize on/off) and against the
 independent model of vlib/ref/zone_model.py.  For every transaction of n operations EVERY
 k in [0, n] is executed as "exception raised inside the ``with`` block after operation k"
-(fault enumeration) before the transaction is run with its own ending.  See DESIGN.md C10.
+(fault enumeration) before the transaction is run with its own ending; in addition every
+mutating operation k is vetoed once from inside by a registered check_put_rdataset /
+check_delete_rdataset / check_delete_name hook.  See DESIGN.md C10.
 
 SCOPING (decisions that keep the oracle sound on the unchanged tree)
 
@@ -79,12 +81,14 @@ RULE = (
     "case = 1-4 write transactions (writer() or writer(replacement=True), 0-12 operations out of "
     "add/replace/delete/delete_exact/update_serial/get/get_node/name_exists/iterate_names/"
     "iterate_rdatasets/changed in every documented argument form, owner spelled as relative or "
-    "absolute Name or str, with case flips; ending commit/rollback/with-exit/exception) over a "
-    "pool of 6 owner names (+1 outside the zone) and 6 record types with 2-3 records each; all "
-    "n+1 crash points of every transaction are run.  non-trivial = (a node lost its last "
-    "rdataset and was re-created later, or a CNAME/other-data replacement happened, or an abort "
-    "followed >= 1 effective write) and some operation used an absolute owner in the relativized "
-    "zones; distinct by SHA-1 of the case"
+    "absolute Name or str, with case flips; ending commit/rollback/with-exit/exception; about half "
+    "of the operations re-use the owner/type/records of an earlier one) over a pool of 6 owner "
+    "names (+1 outside the zone) and CNAME, SOA + 3 further record types with 2-3 generated records "
+    "each; all n+1 crash points of every transaction are run (exception after operation k), plus "
+    "an exception raised inside every mutating operation k by a registered check_* hook.  "
+    "non-trivial = (a node lost its last rdataset and was re-created later, or a CNAME/other-data "
+    "replacement happened, or an abort followed >= 1 effective write) and some operation used an "
+    "absolute owner in the relativized zones; distinct by SHA-1 of the case"
 )
 ASSUMPTIONS = [
     "reference model vlib/ref/zone_model.py (documented rules only) and the canonical RDATA form "
@@ -1127,7 +1131,7 @@ def parts(tier):
             "histories",
             run,
             strategy=histories(4, max_ops),
-            n={"quick": 3200, "thorough": 32000},
+            n={"quick": 1600, "thorough": 16000},
             shards={"quick": 16, "thorough": 16},
             require={
                 "abort-with-prior-writes": 100,
